@@ -333,14 +333,6 @@ def main(tier):
             run.count("crash")
             if j["kind"] == "nest" and j["d"] >= 10**5 and j["stack"] <= 256:
                 deep_crash[(msyn, tn)] = True
-            if recursive and in_graph and not guarded and r["stack_overflow"]:
-                cyc = cycle.get((msyn, tn), ([], []))[1]
-                if msyn == "xer":
-                    run.known_finding("C15-xer-no-stack-guard", desc)
-                    continue
-                if msyn == "oer" and cyc and all(U.NODES[v][1] in ("choice", "opentype") for v in cyc):
-                    run.known_finding("C15-oer-choice-no-stack-guard", desc)
-                    continue
             run.violation("oracle:%s(%s,%s)" % ("nesting" if j["kind"] == "nest" else "heap", tn, syn),
                           dict(replay, what="decoder process died: %s" % r["why"], stderr_tail=r["err"][-1500:], c=r["out"]))
             continue
@@ -384,7 +376,7 @@ def main(tier):
                           {"what": "the model finds an unguarded cycle but the C survives nesting depth 10^5 under a %d KiB stack: guard table or model is stale" % 128,
                            "syntax": syn, "type": tn, "cycle": str(cycle.get((syn, tn)))}, no_input=True)
     run.sample({"nesting": "T ber d=100000 default", "c_output": next((j["r"]["out"] for j in jobs if j["kind"] == "nest" and j["tn"] == "T" and j["syn"] == "ber" and j["d"] == 10**5), "")})
-    tb = ["Coq 8.16.1 kernel; vm_compute for refuted witnesses and Examples", "axioms under Print Assumptions: " + (", ".join(sorted(axioms)) or "none (Closed under the global context)"),
+    tb = ["Coq 8.16.1 kernel; vm_compute for the heap refuted witnesses and Examples", "axioms under Print Assumptions: " + (", ".join(sorted(axioms)) or "none (Closed under the global context)"),
           "extraction: ExtrOcamlBasic only; OCaml 4.13.1", "harness/c15_guards.json (reviewed guard table) and lib/c15_util.scan_guards (regex scanner of the skeleton sources: function body, `if(ASN__STACK_OVERFLOW_CHECK(` followed by a failure, ber_check_tags call)",
           "lib/c15_util.py: type graphs of the hand-written modules (NODES/EDGES), input generators; harness/moddrv_c15.inc (meter: --wrap malloc family, malloc_usable_size; stack extent sampled at allocations)",
           "gcc -O1 with and without ASan/UBSan, LP64, setrlimit(RLIMIT_STACK) in child processes; frame sizes and stack exhaustion are observed, not proved"]
